@@ -56,9 +56,12 @@ static enum topology_direction directions_square_torus[] = {DIRECTION_E, DIRECTI
  * @return A random neighbor according to the specified topology
  */
 static lp_id_t get_random_neighbor(lp_id_t from, struct topology *topology, size_t n_directions,
-    enum topology_direction directions[n_directions])
+    const enum topology_direction directions[n_directions])
 {
 	lp_id_t ret = INVALID_DIRECTION;
+	// Shuffle a private copy: the tables of allowed directions are shared by all LPs and threads
+	enum topology_direction dirs[n_directions];
+	memcpy(dirs, directions, sizeof(dirs));
 
 	assert(topology->geometry != TOPOLOGY_RING);
 	assert(topology->geometry != TOPOLOGY_BIDRING);
@@ -69,14 +72,14 @@ static lp_id_t get_random_neighbor(lp_id_t from, struct topology *topology, size
 	if(n_directions > 1) {
 		for(size_t i = 0; i < n_directions - 1; i++) {
 			size_t j = RandomRange((int)i, (int)n_directions - 1);
-			enum topology_direction t = directions[j];
-			directions[j] = directions[i];
-			directions[i] = t;
+			enum topology_direction t = dirs[j];
+			dirs[j] = dirs[i];
+			dirs[i] = t;
 		}
 	}
 
 	for(size_t i = 0; i < n_directions; i++) {
-		ret = GetReceiver(from, topology, directions[i]);
+		ret = GetReceiver(from, topology, dirs[i]);
 		if(ret != INVALID_DIRECTION)
 			break;
 	}
